@@ -282,8 +282,18 @@ fn varint(v: &mut Vec<u8>, n: u64) {
     }
 }
 
+/// funding txid id → 32 bytes; deliberately *not* a byte palindrome (a persisted txid that comes back
+/// byte-reversed must be a different txid), and injective in the id
 pub fn txid_bytes(id: i64) -> [u8; 32] {
-    [id as u8; 32]
+    let mut b = [0u8; 32];
+    for (i, x) in b.iter_mut().enumerate() {
+        *x = ((id as u64).wrapping_mul(31).wrapping_add(7 * i as u64 + 1) & 0xff) as u8;
+    }
+    b
+}
+
+pub fn txid_id_of(b: &[u8]) -> i64 {
+    (0..256).find(|id| &txid_bytes(*id)[..] == b).unwrap_or(-1)
 }
 
 pub fn serialize(t: &STx, kt: &KeyTab) -> Vec<u8> {
